@@ -347,7 +347,15 @@ func serveGuards(c *core.Ctx) {
 	} else {
 		ctObj := astx.ObjOf(info, lookup.Index)
 		fromHeader := false
+		assignments := 0
 		ast.Inspect(fd.Body, func(n ast.Node) bool {
+			if as, ok := n.(*ast.AssignStmt); ok {
+				for _, l := range as.Lhs {
+					if astx.ObjOf(info, l) == ctObj && ctObj != nil {
+						assignments++
+					}
+				}
+			}
 			if as, ok := n.(*ast.AssignStmt); ok && len(as.Lhs) == 1 && len(as.Rhs) == 1 && astx.ObjOf(info, as.Lhs[0]) == ctObj && ctObj != nil {
 				if call, ok := as.Rhs[0].(*ast.CallExpr); ok && len(call.Args) == 1 {
 					if fn := astx.CalleeFunc(info, call); fn != nil && fn.Name() == "Get" && astx.TypeIs(recvType(fn), "net/http", "Header") {
@@ -359,7 +367,10 @@ func serveGuards(c *core.Ctx) {
 			}
 			return true
 		})
-		c.Check(fromHeader, "dispatch/lookup", lookup.Pos(), "protocol selected by exact map lookup of request.Header.Get(\"Content-Type\") in handler.ContentTypes()")
+		// the protocol's NewConn re-reads the raw header to pick the codec, so the key that selected
+		// the protocol must be that raw header value, unmodified
+		fromHeader = fromHeader && assignments == 1
+		c.Check(fromHeader, "dispatch/lookup", lookup.Pos(), "protocol selected by exact map lookup of the unmodified request.Header.Get(\"Content-Type\") in handler.ContentTypes() (assignments to the key variable: %d)", assignments)
 	}
 }
 
